@@ -19,7 +19,10 @@
 EXTENDS Frost, Json
 
 CONSTANTS Shapes, IdSets, KeyChoices, Key2Choices, CoeffChoices, RandChoices, MsgA, MsgB,
-          MaxExtra, Probes, CommDeltas, EMIT
+          MaxExtra, Probes, CommDeltas,
+          CoordPkps,     \* the coordinator's public key package: subset of {"current", "legacy"} (legacy: the
+                         \* pre-3.0 form that records no threshold)
+          EMIT
 
 VARIABLES pc, sc
 vars == <<fvars, pc, sc>>
@@ -42,8 +45,16 @@ KeyGen ==
        /\ Card(I) = sh[1]
        /\ \E cs \in SeqsOf(CoeffChoices, sh[2] - 1) :
             /\ ActSplit("ss", PKP, key, sh[1], sh[2], Sorted(I), TRUE, cs)
-            /\ sc' = [n |-> sh[1], t |-> sh[2], ids |-> Sorted(I), key |-> key, cs |-> cs]
-  /\ Go(<<"keygen2", 0>>)
+            /\ \E ck \in CoordPkps :
+                 sc' = [n |-> sh[1], t |-> sh[2], ids |-> Sorted(I), key |-> key, cs |-> cs, coord |-> ck]
+  /\ Go(<<"mkleg", 0>>)
+
+CPKP == IF sc.coord = "legacy" THEN <<"pkpLeg", 0>> ELSE PKP
+MkLegacy ==
+  /\ pc[1] = "mkleg"
+  /\ IF sc.coord = "legacy" THEN ActLieMin(<<"pkpLeg", 0>>, PKP, -1) ELSE UNCHANGED fvars
+  /\ pc' = <<"keygen2", 0>>
+  /\ UNCHANGED sc
 
 KeyGen2 ==
   /\ pc[1] = "keygen2"
@@ -144,7 +155,7 @@ Probe1 ==
   /\ CASE PR.kind = "xsess" ->
             ActVerifyShare(PR.i, PR.i, PKP, Z(PR.X, PR.i), PkgOf(PR.Y)) /\ Done
        [] PR.kind = "mix" ->
-            ActAggregate(<<"sig", 0>>, PKGA, [i \in SSet |-> Z(PR.f[i], i)], PKP, "AllCheaters") /\ Done
+            ActAggregate(<<"sig", 0>>, PKGA, [i \in SSet |-> Z(PR.f[i], i)], CPKP, "AllCheaters") /\ Done
        [] PR.kind = "msg" ->
             ActPackage(PKGX, MsgB, SlotsA) /\ pc' = <<"p2", 0>>
        [] PR.kind = "comm" ->
@@ -169,7 +180,7 @@ Probe1 ==
        [] PR.kind = "ident" ->
             ActTamperComm(<<"commX", PR.j>>, <<"commA", PR.j>>, PR.w, 0) /\ pc' = <<"p2", 0>>
        [] PR.kind = "relabel" ->
-            ActAggregate(<<"sig", 0>>, PKGA, (PR.x :> Z("A", PR.i)) @@ [i \in SSet \ {PR.i} |-> Z("A", i)], PKP, PR.mode) /\ Done
+            ActAggregate(<<"sig", 0>>, PKGA, (PR.x :> Z("A", PR.i)) @@ [i \in SSet \ {PR.i} |-> Z("A", i)], CPKP, PR.mode) /\ Done
 
 \* step 2: build the substituted package
 Probe2 ==
@@ -194,15 +205,15 @@ Probe3 ==
        [] PR.kind = "ident" ->
             (CASE PR.call = "sign" -> ActSign(<<"zX", PR.i>>, PKGX, <<"nonA", PR.i>>, <<"kp", PR.i>>)
                [] PR.call = "vshare" -> ActVerifyShare(PR.i, PR.i, PKP, Z("A", PR.i), PKGX)
-               [] PR.call = "agg" -> ActAggregate(<<"sig", 0>>, PKGX, SharesA, PKP, "FirstCheater")) /\ Done
+               [] PR.call = "agg" -> ActAggregate(<<"sig", 0>>, PKGX, SharesA, CPKP, "FirstCheater")) /\ Done
 
 \* step 4 (msg probe): aggregation of A's shares under the other message
 Probe4 ==
   /\ pc[1] = "p4"
   /\ UNCHANGED sc
-  /\ ActAggregate(<<"sig", 0>>, PKGX, SharesA, PKP, "AllCheaters") /\ Done
+  /\ ActAggregate(<<"sig", 0>>, PKGX, SharesA, CPKP, "AllCheaters") /\ Done
 
-Next == KeyGen \/ KeyGen2 \/ MakeKp \/ Choose
+Next == MkLegacy \/ KeyGen \/ KeyGen2 \/ MakeKp \/ Choose
         \/ DoCommit("commitA", "nonA", "commA", <<"commitB", 1>>)
         \/ DoCommit("commitB", "nonB", "commB", <<"packageA", 0>>)
         \/ DoPackage("packageA", PKGA, "commA", MsgA, <<"packageB", 0>>)
